@@ -51,7 +51,7 @@ PROPS = {
                 rule="structural patterns (position x gradient sign x side) exhaustive for n<=2 (quick) / sampled n=3, random n<=10 with 0..10 pairs; non-trivial = a variable on a bound with outward gradient and >=1 breakpoint passed",
                 explanation="theorems on the exact (Q) Cauchy model: breakpoint order, on-path, pinned/feasible; tolerance correspondence with get_cauchy_point; first-local-minimiser clause checked against a dense brute-force oracle",
                 assumptions=COMMON_ASSUME + ["rounding inside BLAS/LAPACK is not modelled (exact rational model, tolerance comparison)"]),
-    "C09": dict(monitor=K, level="proof", corr=["subspace"],
+    "C09": dict(monitor=K, level="proof", corr=["subspace", "fsubspace"],
                 rule="same inputs as C08 pushed through get_freev + subspace_minimization; non-trivial = some but not all variables free",
                 explanation="partial: structure theorems (fixed stay, feasible and maximal alpha*, conditional decrease) on the exact model; exact-minimiser link explored against a dense oracle",
                 assumptions=COMMON_ASSUME),
